@@ -1249,6 +1249,33 @@ Proof. intros H. rewrite !history_independent_lemma, H. reflexivity. Qed.
 Lemma run_calls_app k S a b : run_calls k S (a ++ b) = run_calls k S a ++ run_calls k S b.
 Proof. unfold run_calls. apply map_app. Qed.
 
+(* ---------- the dew-equation clause without the solver contracts ---------- *)
+(* the clause of the property as the text has it: whatever the root finders do, a computed dew temperature satisfies the
+   dew equation on the normalised composition and the returned liquid fractions are the ones of that point *)
+Definition dew_equation_statement : Prop := forall k S z P T x, N2 z ->
+  solve_Tx k S z P = Ok (T, x) ->
+  qsum x == 1 /\ exists raw, x =v= raw /\ root_of (dew_T_error k S P (znorm z) (map (fun u => u * P) (znorm z))) T raw.
+
+(* a root finder that does not deliver a root (here: it returns 300 K whatever it is given) makes the wrapper return a
+   point that violates the equation: the contracts secant_ok / iq_ok / weg_fix of the proved part cannot be dropped *)
+Definition bad_S : solvers := stub_solvers (KTable 300 300) (KTable 300 300) 1.
+
+Lemma bad_S_weg_fix : weg_fix bad_S ex_pkg.
+Proof. intros xg T x. reflexivity. Qed.
+
+Lemma dew_equation_needs_contract : ~ dew_equation_statement.
+Proof.
+  intros H.
+  assert (exists x, solve_Tx ex_pkg bad_S [1; 1] 49152 = Ok (300, x)) as (x & Hx) by (eexists; vm_compute; reflexivity).
+  assert (N2 [1; 1]) as HN by (unfold N2; vm_compute; lia).
+  destruct (H ex_pkg bad_S [1; 1] 49152 300 x HN Hx) as (_ & raw & _ & (b0 & v & R & V)).
+  assert (length (znorm [1; 1]) = length (chems ex_pkg)) as L by reflexivity.
+  assert (Forall (fun p => c1em16 <= p) (psats_at ex_pkg 300)) as F.
+  { repeat constructor; vm_compute; discriminate. }
+  destruct (dew_T_error_ideal_form ex_pkg bad_S 49152 (znorm [1; 1]) b0 300 v raw ex_ideal bad_S_weg_fix L F R) as (_ & _ & E).
+  rewrite E in V. vm_compute in V. discriminate.
+Qed.
+
 (* ---------- tie to the source: the kernels generated from /repo by tr/C08_kernels.py are the hand-written ones ---------- *)
 Lemma generated_kernels_agree :
   g_bubble_T_error = bubble_T_error /\ g_bubble_P_error = bubble_P_error /\
